@@ -21,4 +21,7 @@ HugeCuts == UNION {Near(Ends(s, Len(s))) : s \in Huge} \cup Near({32767, 32768, 
 \* controller: 2048-byte reads; allow only a couple of early cut points, the rest are full-size reads
 HugeCutsC == {7, 8, 9, 17}
 NoCuts == {}
+NoFail == {{}}
+SomeFail == {{}, {1}, {2}, {1, 2}, {1, 3}}
+FewFail == {{}, {1}, {2}}
 ====
